@@ -1,7 +1,7 @@
 (* RunC11.v — case interpreter for the C11 correspondence check.
    A case is a list of N (one line of integers); so is the result.  The Rust
    harness (harness/src/bin/c11.rs) decodes the same line and runs compio-io. *)
-From Compio.Model Require Import Base IoHelpers.
+From Compio.Model Require Import Base IoHelpers Buf IoVectored.
 
 Definition obind {A B} (o : option A) (f : A -> option B) : option B :=
   match o with Some a => f a | None => None end.
@@ -74,6 +74,12 @@ Definition enc_log (log : list wev) : list N :=
   NN (length log) :: flat_map enc_wev log.
 
 Definition enc_panic (c : N) : list N := [2%N; c].
+
+(* vectored members: [len; cap] pairs -> canary-filled Vec<u8> roots of Buf.v *)
+Definition root_of_pair (p : nat * nat) : root :=
+  mkroot KVec (canaries_from 0 (snd p)) (fst p) 0.
+Definition enc_members (ms : list root) : list N :=
+  flat_map (fun m => enc_vec (rcap m) (mkvec (rcells m) (rlen m))) ms.
 
 (* ---- BufReader / BufWriter programs ---------------------------------- *)
 
@@ -275,6 +281,41 @@ Definition run_opt (l : list N) : option (list N) :=
     let? '(v, l) := dec_vec l in
     let '(k, v') := repeat_read b v in
     Some ([0%N; NN k] ++ enc_vec (vcap v) v')
+  | 20%N => (* read_vectored_exact over the scripted reader (default read_vectored):
+               nm, (len cap)*, nsched, sched, src *)
+    let? '(nm, l) := take1 l in
+    if negb (N.leb nm 8) then None else
+    let? '(ps, l) := dec_list (nn nm) dec_pair l in
+    let? '(ns, l) := take1 l in
+    let? '(s, l) := dec_sched (nn ns) l in
+    match read_vectored_exact s l (map root_of_pair ps) with
+    | Panic c => Some (enc_panic c)
+    | Ok (o, ms', src', _) => Some (enc_outcome o ++ enc_members ms' ++ [NN (length src')])
+    end
+  | 21%N => (* <[u8]>::read_vectored_exact_at: pos, nm, (len cap)*, this *)
+    let? '(pos, l) := take1 l in
+    let? '(nm, l) := take1 l in
+    if negb (N.leb nm 8 && N.leb pos 4096) then None else
+    let? '(ps, l) := dec_list (nn nm) dec_pair l in
+    match read_vectored_exact_at l (nn pos) (map root_of_pair ps) with
+    | Panic c => Some (enc_panic c)
+    | Ok (o, ms') => Some (enc_outcome o ++ enc_members ms')
+    end
+  | 22%N => (* the default read_vectored, one call: nm, (len cap)*, kind, arg, src *)
+    let? '(nm, l) := take1 l in
+    if negb (N.leb nm 8) then None else
+    let? '(ps, l) := dec_list (nn nm) dec_pair l in
+    let? '(s, l) := dec_sched 1 l in
+    match read_vectored_once (hd_error s) l (map root_of_pair ps) with
+    | Panic c => Some (enc_panic c)
+    | Ok (r, ms', src') =>
+      let o := match r with
+               | None => OOk 0
+               | Some (RN k) => OOk k
+               | Some (RE e) => OErr e
+               end in
+      Some (enc_outcome o ++ enc_members ms' ++ [NN (length src')])
+    end
   | _ => None
   end.
 
